@@ -129,3 +129,28 @@ def call_entry(ref, entry, la, le, kw, workdir, nl_a=True, nl_e=True, tag='x'):
         return 'fail', str(e)
     except Exception as e:
         return 'error', '%s: %s' % (type(e).__name__, str(e)[:200])
+
+
+def identical_entry(ref, entry, ls, kw, workdir, eol='\n', final=True, tag='i'):
+    """The same content on both sides (byte for byte) through one assertion entry point."""
+    content = eol.join(ls) + (eol if final and ls else '')
+    rp = os.path.join(workdir, 'iref_%s.txt' % tag)
+    with open(rp, 'w', encoding='utf-8', newline='') as f:
+        f.write(content)
+    try:
+        with contextlib.redirect_stdout(io.StringIO()), contextlib.redirect_stderr(io.StringIO()):
+            if entry == 'string':
+                ref.assertStringCorrect(content, rp, **kw)
+            else:
+                ap = os.path.join(workdir, 'iact_%s.txt' % tag)
+                with open(ap, 'w', encoding='utf-8', newline='') as f:
+                    f.write(content)
+                if entry == 'file':
+                    ref.assertTextFileCorrect(ap, rp, **kw)
+                else:
+                    ref.assertTextFilesCorrect([ap, ap], [rp, rp], **kw)
+        return 'pass', ''
+    except (Fail, AssertionError) as e:
+        return 'fail', str(e)
+    except Exception as e:
+        return 'error', '%s: %s' % (type(e).__name__, str(e)[:200])
